@@ -106,7 +106,9 @@ def records(spec):
             pl = _placements(site, length, D)
             for k, (kind, kw) in enumerate(kinds):
                 label, pos = pl[(j + k) % len(pl)]
-                add(contig, pos, site, bool((j + k) % 2), [kind, label], **kw)
+                # the cell is the (j mod 3)-th base-3 digit of k: every kind gets its own (site, cell) footprint,
+                # so that "kind K counted f times" explanations of a discrepancy do not coincide
+                add(contig, pos, site, bool((j + k) % 2), [kind, label], cell=CELLS[(k // 3 ** (j % 3)) % 3], **kw)
         if variant == 'edge':
             for site, pos, reverse in ((-1, 0, False), (-2, 0, False), (length, length - RL, True),
                                        (length + 1, length - RL, True)):
